@@ -401,6 +401,7 @@ CLAIM = {
             "exactly the model's overspend/oversell cells (cells witnessed by a 1080-point grid; code that splits a cell differently "
             "forks on witnessed points). submit;cancel restores all ledgers exactly, submit;execute settles with fee, also for the "
             "first order of a symbol. Deltas are state independent, so this extends to every operation sequence. Position size "
-            "update mirrors the base balance; ledger stores go through exact decimal helpers. Not decided: float rounding inside Decimal(str(.)).",
+            "update mirrors the base balance, and Position._on_executed_order on a spot exchange never leaves a negative size (sell "
+            "<, =, > the position, flat position, both reduce_only flags); ledger stores go through exact decimal helpers. Not decided: float rounding inside Decimal(str(.)).",
     "note": "Trusted: interpreter semantics; exact-arithmetic model of sum_floats/subtract_floats; grid distinguishes linear predicates over the small integers used.",
 }
